@@ -60,8 +60,8 @@ IAnsUnsafe == { [A0 EXCEPT !.st = s, !.ccp = 0, !.ma = None, !.etag = 0, !.loc1 
 (***************************************************************************)
 WStored == { [A0 EXCEPT !.ma = 5, !.swr = w, !.vary = <<2>>, !.lm = l] : w \in {None, 10}, l \in (IF Thorough THEN {None, 100} ELSE {None}) }
 WFull == { [A0 EXCEPT !.ma = 60, !.etag = 2, !.vary = v[1], !.vs = v[2]] : v \in (IF Thorough THEN {<<<<2>>, 0>>, <<<<2, 3>>, 0>>, <<<<>>, 0>>} ELSE {<<<<2>>, 0>>, <<<<2, 3>>, 0>>}) }
-W304 == IF Thorough THEN { [A304 EXCEPT !.ma = m, !.age = a, !.nodate = d] : m \in {50, None}, a \in {None, 2}, d \in {0, 1} }
-        ELSE { A304, [A304 EXCEPT !.ma = None, !.nodate = 1], [A304 EXCEPT !.age = 2] }
+W304 == IF Thorough THEN { [A304 EXCEPT !.ma = m, !.age = a, !.nodate = d, !.etag = e] : m \in {50, None}, a \in {None, 2}, d \in {0, 1}, e \in {1, 2} }
+        ELSE { A304, [A304 EXCEPT !.ma = None, !.nodate = 1], [A304 EXCEPT !.age = 2], [A304 EXCEPT !.etag = 2] }
 
 Stored == IF DOMAIN ent = {} THEN NoEnt ELSE ent[CHOOSE i \in DOMAIN ent : TRUE]
 
@@ -91,7 +91,8 @@ Requests(p) ==
     [] Family = "wb" ->
          IF p = 1 THEN {[Rq0 EXCEPT !.sel = Sel(1, 0)]}
          ELSE IF p = 2 THEN {[Rq0 EXCEPT !.sel = Sel(2, 0)]}
-         ELSE IF p = 4 THEN {[Rq0 EXCEPT !.sel = Sel(1, 0)], [Rq0 EXCEPT !.sel = Sel(1, 0), !.fl = <<"no-cache">>]}
+         ELSE IF p = 4 THEN {[Rq0 EXCEPT !.sel = Sel(1, 0)], [Rq0 EXCEPT !.sel = Sel(1, 0), !.fl = <<"no-cache">>],
+                             [Rq0 EXCEPT !.sel = Sel(1, 0), !.fl = <<"no-store">>]}
          ELSE IF p = 6 THEN {[Rq0 EXCEPT !.sel = Sel(1, 0)], [Rq0 EXCEPT !.sel = Sel(1, 1)]}
          ELSE IF p = 8 THEN {[Rq0 EXCEPT !.sel = Sel(2, 0)]}
          ELSE {[Rq0 EXCEPT !.sel = Sel(1, 0)]}
